@@ -8,6 +8,10 @@ from .clients import blocks_calling, calls, panic_sites, site_where, is_external
 MAINS = {"radar": "radar::main", "1090": "1090::main"}
 
 
+_CMPS = {"Eq": lambda a, b: a == b, "Ne": lambda a, b: a != b, "Lt": lambda a, b: a < b, "Le": lambda a, b: a <= b,
+         "Gt": lambda a, b: a > b, "Ge": lambda a, b: a >= b}
+
+
 def read_line_info(fn):
     """block of the read_line call, its buffer local, the blocks of the Ok / Err outcomes and of Ok(len != 0)"""
     rl = [(i, c) for i, p, full, c in calls(fn) if p.endswith("BufRead::read_line")]
@@ -35,8 +39,10 @@ def read_line_info(fn):
                 ok_blk, err_blk = tm[0], tm.get(1, sw["otherwise"])
             break
         b = cfg.succ[b][0] if cfg.succ[b] else None
-    # Ok(len): the `len == 0` test
+    # Ok(len): the test that separates an empty read (len == 0) from a non-empty one. Any comparison of len with a constant is
+    # accepted; the branch taken is evaluated for len = 0 and for sample non-zero lengths.
     nz_blk = zero_blk = None
+    nz_all = []
     if ok_blk is not None:
         b = ok_blk
         seen = set()
@@ -45,16 +51,28 @@ def read_line_info(fn):
             blk = fn["blocks"][b]
             t = blk["term"]
             if t and "switch" in t:
-                eq = [s for s in blk["stmts"] if "assign" in s and "bin" in s["assign"][1] and s["assign"][1]["bin"][0] == "Eq"
-                      and "const" in s["assign"][1]["bin"][2] and s["assign"][1]["bin"][2]["const"].get("int") == 0]
-                if eq:
+                cmpst = None
+                for st_ in blk["stmts"]:
+                    if "assign" in st_ and "bin" in st_["assign"][1] and st_["assign"][1]["bin"][0] in _CMPS:
+                        op, x, y = st_["assign"][1]["bin"]
+                        if "const" in y and y["const"].get("int") is not None:
+                            cmpst = (op, y["const"]["int"], False)
+                        elif "const" in x and x["const"].get("int") is not None:
+                            cmpst = (op, x["const"]["int"], True)
+                if cmpst:
                     sw = t["switch"]
                     tm = {v: tb for v, tb in sw["targets"]}
-                    nz_blk = tm.get(0, sw["otherwise"])
-                    zero_blk = sw["otherwise"] if 0 in tm else tm.get(1)
+
+                    def tgt(n):
+                        op, k, swapped = cmpst
+                        r = _CMPS[op](k, n) if swapped else _CMPS[op](n, k)
+                        return tm.get(1 if r else 0, sw["otherwise"])
+                    zero_blk = tgt(0)
+                    nz_all = sorted(set(tgt(n) for n in (1, 2, 3, 16, 31, 1 << 20)))
+                    nz_blk = nz_all[0] if nz_all == [x for x in nz_all if x != zero_blk] and len(nz_all) == 1 else (nz_all[0] if nz_all else None)
                 break
             b = cfg.succ[b][0] if len(cfg.succ[b]) == 1 else None
-    return {"block": i, "buf": buf, "ok": ok_blk, "err": err_blk, "nonzero": nz_blk, "zero": zero_blk, "dest": dest}
+    return {"block": i, "buf": buf, "ok": ok_blk, "err": err_blk, "nonzero": nz_blk, "nonzero_all": nz_all, "zero": zero_blk, "dest": dest}
 
 
 def clear_blocks(fn, buf):
@@ -84,7 +102,12 @@ def buffer_rules(rep, prog):
         cfg = cfg_of(fn)
         clears = clear_blocks(fn, info["buf"])
         rep.instance(r1, name, sample={"client": name, "read_line_block": info["block"], "buffer_local": info["buf"], "clearing_blocks": clears})
-        ok, wit = cfg.all_paths_pass(info["nonzero"], [info["block"]], clears)
+        ok, wit = True, []
+        for nzb in info.get("nonzero_all") or [info["nonzero"]]:
+            # every branch a non-empty read can take (a test such as `len <= 1` sends some complete lines down the empty-read path)
+            ok1, wit1 = cfg.all_paths_pass(nzb, [info["block"]], clears)
+            if not ok1:
+                ok, wit = False, wit1
         if not ok:
             lines = [line_of(fn, b) for b in wit if line_of(fn, b)]
             rep.violation("R1", "%s:complete-line-not-cleared" % name,
